@@ -240,6 +240,11 @@ func extractArgumentsType(f *ast.FuncDecl) ([]string, bool) {
 
 // augmentCall walks the function and populate call accordingly.
 func augmentCall(call *Call, f *ast.FuncDecl) {
+	if f.Recv != nil && len(f.Recv.List) != 1 {
+		// go/parser accepts "func () f()" and "func (a T, b T) f()". Such a source
+		// does not match the binary; leave the call as is.
+		return
+	}
 	flatArgs := make([]*Arg, 0, len(call.Args.Values))
 	call.Args.walk(func(arg *Arg) {
 		flatArgs = append(flatArgs, arg)
